@@ -316,6 +316,9 @@ func (x *Exec) branch(c *Term) bool {
 	if debugForkSites && len(x.cstack) > 0 {
 		fmt.Fprintf(os.Stderr, "fork-site %s\n", x.cstack[len(x.cstack)-1])
 	}
+	if debugForks {
+		fmt.Fprintf(os.Stderr, "fork@%d: %s\n", len(x.trace), x.stackString())
+	}
 	sib := append(append([]Decision{}, x.trace...), Decision{DecBranch, 0})
 	x.pending = append(x.pending, sib)
 	x.trace = append(x.trace, Decision{DecBranch, 1})
